@@ -40,8 +40,10 @@ type CSym struct {
 	Cred      string    `json:"cred,omitempty"` // credential token; "-" = no authentication member
 	WrongType bool      `json:"wrongType,omitempty"`
 	From      *NodeSpec `json:"from,omitempty"`
-	DoTLS     bool      `json:"doTls,omitempty"` // perform the TLS handshake if the server confirms tls
-	Glued     bool      `json:"glued,omitempty"` // written in the same write as the previous symbol (a peer that pipelines cleartext behind its choice)
+	PP        *NodeSpec `json:"pp,omitempty"`        // a delegation node on a session envelope: it has no say in who is being authenticated
+	DoTLS     bool      `json:"doTls,omitempty"`     // perform the TLS handshake if the server confirms tls
+	ForceAuth bool      `json:"forceAuth,omitempty"` // carry scheme and authentication data although the state is not authenticating
+	Glued     bool      `json:"glued,omitempty"`     // written in the same write as the previous symbol (a peer that pipelines cleartext behind its choice)
 }
 
 type SrvCase struct {
@@ -245,6 +247,9 @@ func symToEnv(s *CSym, sid string) M {
 	if s.From != nil {
 		m["from"] = NodeText(s.From.Node())
 	}
+	if s.PP != nil {
+		m["pp"] = NodeText(s.PP.Node())
+	}
 	switch s.Kind {
 	case "session":
 		m["state"] = s.State
@@ -257,7 +262,7 @@ func symToEnv(s *CSym, sid string) M {
 		if s.Scheme != "" {
 			m["scheme"] = s.Scheme
 		}
-		if s.State == "authenticating" && s.Cred != "-" && s.Scheme != "" {
+		if (s.State == "authenticating" || s.ForceAuth) && s.Cred != "-" && s.Scheme != "" {
 			m["authentication"] = authMember(s.Scheme, s.Cred, s.WrongType)
 		}
 	case "message":
@@ -828,7 +833,7 @@ func RunServerModel(c *SrvCase, negotiates bool) *ModelResult {
 
 // decodableSym: a session symbol the codec accepts (authentication data needs a known scheme to be decoded).
 func decodableSym(s *CSym) bool {
-	if s.Kind == "session" && s.State == "authenticating" && s.Cred != "-" && s.Scheme != "" {
+	if s.Kind == "session" && (s.State == "authenticating" || s.ForceAuth) && s.Cred != "-" && s.Scheme != "" {
 		return containsStr(Schemes, s.Scheme)
 	}
 	return true
